@@ -346,7 +346,7 @@ Definition ListArray_getitem_next_array_advanced (tocarry toadvanced starts stop
     let ra := if a <? 0 then a + length else a in
     let* _ := kcheck (negb ((0 <=? ra) && (ra <? length))) MIndexOutOfRange in
     let* tc' := kupd tc i (start + ra) in
-    let* ta' := kupd ta i i in
+    let* ta' := kupd ta i adv in      (* toadvanced[i] = fromadvanced[i] (repaired in /repo; it was i) *)
     KOk (tc', ta')) (tocarry, toadvanced).
 
 (* awkward_ListArray_getitem_carry<C, T> *)
@@ -398,7 +398,7 @@ Definition RegularArray_getitem_next_array_advanced (tocarry toadvanced fromadva
     let* adv := kget fromadvanced i in
     let* a := kget fromarray adv in
     let* tc' := kupd tc i (i * size + a) in
-    let* ta' := kupd ta i i in
+    let* ta' := kupd ta i adv in      (* toadvanced[i] = fromadvanced[i] (repaired in /repo; it was i) *)
     KOk (tc', ta')) (tocarry, toadvanced).
 
 Definition RegularArray_getitem_next_array_regularize (toarray fromarray : list Z) (lenarray size : Z) : kres (list Z) :=
